@@ -98,6 +98,8 @@ type Sched struct {
 
 	Probes map[string]int
 
+	// MakePTY supplies the simulated pseudo terminal for widgets/term.
+	MakePTY func(cols, rows int) PTY
 	// OnTaskPanic is called (on the panicking task's goroutine, after the
 	// panic was recorded) when a task dies of a panic.
 	OnTaskPanic func(t *Task)
